@@ -3,6 +3,7 @@ package main
 // Memory model: symbolic state, structural pointers (paths), loads and stores.
 
 import (
+	"regexp"
 	"fmt"
 	"go/types"
 	"strings"
@@ -211,7 +212,7 @@ func (c *Ctx) heapNameField(t types.Type, u *types.Struct, i int) (string, strin
 func (c *Ctx) heapNameOfPath(p *Path) string {
 	switch p.Kind {
 	case rootHeap:
-		if u, ok := p.T.Underlying().(*types.Struct); ok && u.NumFields() > 0 {
+		if u, ok := heapStruct(p); ok {
 			if len(p.Steps) > 0 && !p.Steps[0].IsIdx {
 				n, _ := c.heapNameField(p.T, u, p.Steps[0].Field)
 				return n
@@ -249,6 +250,9 @@ func heapStruct(p *Path) (*types.Struct, bool) {
 	if p.Kind != rootHeap {
 		return nil, false
 	}
+	if isGoSliceLike(p.T) || isGoStringLike(p.T) {
+		return nil, false // header values are atomic (slice / string sorts)
+	}
 	u, ok := p.T.Underlying().(*types.Struct)
 	return u, ok && u.NumFields() > 0
 }
@@ -267,12 +271,12 @@ func (c *Ctx) rootTerm(st *State, p *Path) string {
 			var fs []string
 			for i := 0; i < u.NumFields(); i++ {
 				n, s := c.heapNameField(p.T, u, i)
-				fs = append(fs, fmt.Sprintf("(select %s %s)", c.heap(st, n, s), p.Ref))
+				fs = append(fs, c.selHeap(c.heap(st, n, s), p.Ref))
 			}
 			return fmt.Sprintf("(mk_%s %s)", c.sortOf(p.T), strings.Join(fs, " "))
 		}
 		n, s := c.heapNameObj(p.T)
-		return fmt.Sprintf("(select %s %s)", c.heap(st, n, s), p.Ref)
+		return c.selHeap(c.heap(st, n, s), p.Ref)
 	case rootArr:
 		n, s := c.heapNameArr(p.T)
 		return fmt.Sprintf("(select %s %s)", c.heap(st, n, s), p.Ref)
@@ -368,7 +372,7 @@ func (c *Ctx) load(st *State, p *Path) string {
 	var term string
 	if u, ok := heapStruct(p); ok && len(steps) > 0 && !steps[0].IsIdx {
 		n, s := c.heapNameField(p.T, u, steps[0].Field)
-		term = fmt.Sprintf("(select %s %s)", c.heap(st, n, s), p.Ref)
+		term = c.selHeap(c.heap(st, n, s), p.Ref)
 		t = u.Field(steps[0].Field).Type()
 		steps = steps[1:]
 	} else {
@@ -436,7 +440,33 @@ func (c *Ctx) update(t types.Type, term string, steps []Step, v string) string {
 //
 // Supported: *[]T viewed as *rt.GoSlice {Ptr, Len, Cap}; *string viewed as *rt.GoString {Ptr, Len}.
 
+// isGoSliceLike / isGoStringLike: struct types laid out like a slice / string
+// header (rt.GoSlice{Ptr,Len,Cap}, rt.GoString{Ptr,Len}).  Values of these
+// types are represented by the slice / string sorts, so a []byte and its
+// GoSlice view are literally the same value.
+func isGoSliceLike(t types.Type) bool {
+	if _, named := t.(*types.Named); !named {
+		return false
+	}
+	vs, ok := t.Underlying().(*types.Struct)
+	return ok && vs.NumFields() == 3 && vs.Field(0).Name() == "Ptr" && isUnsafePtr(vs.Field(0).Type()) && vs.Field(1).Name() == "Len" && vs.Field(2).Name() == "Cap"
+}
+
+func isGoStringLike(t types.Type) bool {
+	if _, named := t.(*types.Named); !named {
+		return false
+	}
+	vs, ok := t.Underlying().(*types.Struct)
+	return ok && vs.NumFields() == 2 && vs.Field(0).Name() == "Ptr" && isUnsafePtr(vs.Field(0).Type()) && vs.Field(1).Name() == "Len"
+}
+
 func viewKind(natural, view types.Type) string {
+	if isGoSliceLike(natural) && isGoSliceLike(view) {
+		return "slice"
+	}
+	if isGoStringLike(natural) && isGoStringLike(view) {
+		return "string"
+	}
 	vs, ok := view.Underlying().(*types.Struct)
 	if !ok {
 		return ""
@@ -455,9 +485,50 @@ func viewKind(natural, view types.Type) string {
 }
 
 func (c *Ctx) loadView(st *State, p *Path) string {
+	q := *p
+	q.View = nil
+	if viewKind(c.naturalType(&q), p.View) != "" {
+		return c.load(st, &q) // same sort: the header value itself
+	}
 	panic(unsupported("whole-value load through reinterpreted pointer " + p.String()))
 }
 
 func (c *Ctx) storeView(st *State, p *Path, v string) {
+	q := *p
+	q.View = nil
+	if viewKind(c.naturalType(&q), p.View) != "" {
+		c.store(st, &q, v)
+		return
+	}
 	panic(unsupported("whole-value store through reinterpreted pointer " + p.String()))
+}
+
+var reNewSym = regexp.MustCompile(`^new![0-9]+$`)
+
+// selHeap reads heap h at reference r, resolving syntactically what it can:
+// select(store(h, r, v), r) = v, and a store at a different allocation site
+// (distinct new!k symbols denote distinct objects) is skipped.
+func (c *Ctx) selHeap(h, r string) string {
+	for i := 0; i < 64; i++ {
+		body := h
+		if b, ok := c.defBody[h]; ok {
+			body = b
+		}
+		if !strings.HasPrefix(body, "(store ") {
+			break
+		}
+		parts := splitTopLevel(body[1 : len(body)-1])
+		if len(parts) != 4 {
+			break
+		}
+		if parts[2] == r {
+			return parts[3]
+		}
+		if reNewSym.MatchString(parts[2]) && reNewSym.MatchString(r) {
+			h = parts[1]
+			continue
+		}
+		break
+	}
+	return fmt.Sprintf("(select %s %s)", h, r)
 }
